@@ -172,6 +172,16 @@ pub fn checked_div_stub(a: i64, b: i64) -> Option<i64> {
     }
 }
 
+pub fn wrapping_div_stub(a: i64, b: i64) -> i64 {
+    assert!(b != 0, "wrapping_div_precondition_nonzero_divisor");
+    if b == -1 {
+        a.wrapping_neg()
+    } else {
+        let q: i64 = kani::any();
+        q
+    }
+}
+
 pub fn checked_rem_stub(a: i64, b: i64) -> Option<i64> {
     if b == 0 || (a == i64::MIN && b == -1) {
         None
@@ -361,6 +371,7 @@ def harness(optag, op, lk, group, rks):
     out = ["#[kani::proof]\n", f"#[kani::unwind({unwind})]\n", "#[kani::stub(alloc::fmt::format, fmt_stub)]\n"]
     if "int" in doms and op == "Div":
         out.append("#[kani::stub(i64::checked_div, checked_div_stub)]\n")
+        out.append("#[kani::stub(i64::wrapping_div, wrapping_div_stub)]\n")
     if "int" in doms and op == "Mod":
         out.append("#[kani::stub(i64::checked_rem, checked_rem_stub)]\n")
         out.append("#[kani::stub(i64::wrapping_rem, wrapping_rem_stub)]\n")
